@@ -11,7 +11,6 @@ import (
 	"path"
 	"sort"
 	"strings"
-	"sync"
 	"testing/synctest"
 	"time"
 )
@@ -113,23 +112,27 @@ type Event struct {
 }
 
 type Sim struct {
-	mu      sync.Mutex
-	events  []*Event
-	wake    chan struct{}
-	Tape    *Tape
-	start   time.Time
-	seq     uint64
-	evid    uint64
-	log     []string
-	LogOn   bool
-	hash    [32]byte
-	hasher  []byte
-	Steps   int
-	MaxStep int
-	MaxTime time.Duration
-	Viol    []Violation
-	Probes  map[string]int
-	Faults  map[string]int
+	mu QuietMutex
+	// Batch / BatchWindow: run all events enabled within the window before the
+	// next quiescence point (concurrent engines only; not replayable)
+	Batch       bool
+	BatchWindow time.Duration
+	events      []*Event
+	wake        chan struct{}
+	Tape        *Tape
+	start       time.Time
+	seq         uint64
+	evid        uint64
+	log         []string
+	LogOn       bool
+	hash        [32]byte
+	hasher      []byte
+	Steps       int
+	MaxStep     int
+	MaxTime     time.Duration
+	Viol        []Violation
+	Probes      map[string]int
+	Faults      map[string]int
 	// Invariant, when set, is evaluated after every step at quiescence.
 	Invariant func()
 	stopped   bool
@@ -375,7 +378,7 @@ func (s *Sim) Run(done func() bool) bool {
 		var en []*Event
 		var next time.Duration = -1
 		for _, e := range s.events {
-			if e.At <= now {
+			if e.At <= now+s.BatchWindow {
 				en = append(en, e)
 			} else if next < 0 || e.At < next {
 				next = e.At
@@ -422,6 +425,29 @@ func (s *Sim) Run(done func() bool) bool {
 			}
 			return en[i].id < en[j].id
 		})
+		if s.Batch {
+			// concurrent mode (C20): every enabled event runs before the next
+			// quiescence point, so that the goroutines they wake run in parallel
+			s.mu.Lock()
+			keep := s.events[:0]
+			inBatch := map[*Event]bool{}
+			for _, e := range en {
+				inBatch[e] = true
+			}
+			for _, e := range s.events {
+				if !inBatch[e] {
+					keep = append(keep, e)
+				}
+			}
+			s.events = keep
+			s.mu.Unlock()
+			s.idleQ = 0
+			for _, e := range en {
+				s.Steps++
+				e.Run()
+			}
+			continue
+		}
 		i := s.Tape.Choose(len(en))
 		ev := en[i]
 		s.mu.Lock()
